@@ -143,6 +143,7 @@ def render(toks, indent=""):
     cur = []
     curline = None
     last_src_line = None
+    prev_k = None
     def flush():
         nonlocal cur, curline
         out.append(indent + "".join(cur).rstrip())
@@ -157,8 +158,13 @@ def render(toks, indent=""):
         if not cur:
             cur.append(" " * min(t.col, 40) if t.line is not None else "")
             cur.append(t.s)
+            prev_k = t.k
+            continue
         else:
-            cur.append((" " if t.sp else "") + t.s)
+            # two word-like tokens can never be adjacent without a separator
+            need = t.sp or (prev_k in ("id", "num", "life") and t.k in ("id", "num", "life"))
+            cur.append((" " if need else "") + t.s)
+        prev_k = t.k
     if cur: flush()
     return "\n".join(out), linemap
 
